@@ -59,3 +59,8 @@ def context_cfg(kind: str, *, threads=2, progs="{1, 2, 3, 4}", warmth='{"cold", 
     if kind == "gen":
         return head + "CONSTRAINT EmitDone\nCHECK_DEADLOCK FALSE\n"
     raise ValueError(kind)
+
+
+# DateTime.tla: DatePolicy "repaired" after the fix: commit for F7
+def datetime_variant() -> str:
+    return os.environ.get("XV_DATE_VARIANT", "repaired")
